@@ -98,6 +98,7 @@ vproof! {
 }
 
 //@ id: c02_binomial_switch_more
+//@ besteffort: yes
 //@ prop: C02
 //@ tier: thorough
 //@ cap: 3600
